@@ -326,4 +326,47 @@ def gfxToPngImage? (fmt : Fmt) (W H : Nat) (data : Array Byte) : Option Img :=
   | .rgb => imgFromRGBBytes? W H data
   | .gray => imgFromGrayBytes? W H data
 
+/-! ## ONE mono image object used more than once (the `pix.obj` records)
+
+The object is its canvas and the two colour fields `OLEDPixelColor` / `OLEDBckgColor`; there is no other state (no cached
+luma, no buffer kept from the previous image).  Every (re)creation runs `init()`: colours back to white on black. -/
+
+structure Obj where
+  c : Canvas := newCanvas 0 0      -- a zero-value `MonoImg`: no canvas, bounding box 0, colours 0
+  pcol : Nat := 0
+  bcol : Nat := 0
+
+inductive ObjCall where
+  | pixelColor (code : Nat)                                   -- `SetOLEDPixelColor`
+  | bckgColor (code : Nat)                                    -- `SetOLEDBckgColor`
+  | newImage (w h : Nat)                                      -- `NewImage`
+  | fromBytes (w h : Nat) (bytes : Array Byte)                -- `CreateFromBytes` (short, exact or long slice)
+  | fillRect (x y w h : Int) (col : Bool)                     -- `FillRect`
+  | fromMono (w h : Nat) (inv : Bool) (bits : Array Byte)     -- `CreateFromImage(ConvertToImage(inv))` of a fresh w×h image
+  | fromImg (src : Img)                                       -- `CreateFromImage` of an RGBA image
+  | selfRoundtrip (inv : Bool)                                -- `CreateFromImage` of the object's own `ConvertToImage(inv)`
+  | exports                                                   -- `GetImgSliceRGB` / `GetImgSliceGray` (no state change)
+
+/-- `init()` after a (re)creation -/
+def Obj.recreated (c : Canvas) : Obj := { c := c, pcol := 0xFFFF, bcol := 0 }
+
+/-- a fresh w×h image whose buffer is `bits` (`CreateFromBytes` with at least `⌈w/8⌉·h` bytes) -/
+def canvasOfBits (w h : Nat) (bits : Array Byte) : Canvas := { (newCanvas w h) with bytes := bits }
+
+/-- one call; `none` = a Go panic (index out of range) -/
+def applyObj (o : Obj) : ObjCall → Option Obj
+  | .pixelColor code => some { o with pcol := color565 code }
+  | .bckgColor code => some { o with bcol := color565 code }
+  | .newImage w h => some (Obj.recreated (newCanvas w h))
+  | .fromBytes w h bytes => some (Obj.recreated (createFromBytes w h bytes).1)
+  | .fillRect x y w h col => some { o with c := fillRect o.c x y w h col }
+  | .fromMono w h inv bits => ((toImage (canvasOfBits w h bits) inv).bind fromImage).map Obj.recreated
+  | .fromImg src => (fromImage src).map Obj.recreated
+  | .selfRoundtrip inv => ((toImage o.c inv).bind fromImage).map Obj.recreated
+  | .exports => some o
+
+def runObj (o : Obj) : List ObjCall → Option Obj
+  | [] => some o
+  | call :: rest => (applyObj o call).bind (fun o' => runObj o' rest)
+
 end RawPanelVerif.Pix
